@@ -84,6 +84,15 @@ def notification(P, R):
         # states are reset by the mutations themselves, so judge the guard at the first mutation
         ok = bool(sts) and all(not (d.get('A') and d.get('B')) for d in sts)
         R.ob('C15.GRD.1', ok, s, 'the list hook runs only when the new list differs from the current one', key='predicate:list')
+    # the items are compared exactly, like plain strings: an edit that changes only the letter case is a change
+    cmpn = 0
+    for b in ls.blocks:
+        c = ls.term_cond(b)
+        for x in walk(c) if c is not None else ():
+            if x.get('k') == 'callref' and x.get('callee') in ('strcmp', 'strcasecmp', 'strncmp', 'strncasecmp', 'strcoll') and any(on_path(a, 'vec') for a in x.get('args', [])):
+                cmpn += 1
+                R.ob('C15.GRD.1', x['callee'] == 'strcmp', P.relloc((ls.blocks[b].get('term') or {}).get('loc')) if (ls.blocks[b].get('term') or {}).get('loc') else ls,
+                     'list items are compared exactly (%s)' % x['callee'], key='predicate:list-exact')
     rets = [s for s in ls.sites() if s.ev['k'] == 'ret']
     early = [s for s in rets if not any(ls.before(m, s) or m.bid in ls.reach([ls.entry], cut_blocks=[s.bid]) and False for m in muts) and s.bid not in {b for m in muts for b in ls.reach([m.bid])}]
     for s in early:
@@ -193,6 +202,18 @@ def notification(P, R):
             if r and isinstance(r[0], dict) and r[0].get('k') == 'callref' and r[0].get('callee') == 'conf_replace_value' and r[1] == '!=' and const_of(r[2]) == 0:
                 first = rv.block_sites(e.dst)
                 R.ob('C15.MPT.1', any(t in mods for t in first), first[0] if first else rv, 'a child removed during the merge marks its parent modified', key='removal->modified')
+    # every revert of a child that left the file (recursive call with no source) has its "the child was removed" result
+    # looked at: a removal whose result is dropped never reaches the parent's hook
+    for s in rv.calls('conf_replace_value'):
+        if len(s.ev['args']) < 2 or const_of(s.ev['args'][1]) != 0:
+            continue
+        c = rv.term_cond(s.bid)
+        used = c is not None and any(x.get('k') == 'callref' and x.get('callee') == 'conf_replace_value' and [sx(a) for a in x.get('args', [])] == [sx(a) for a in s.ev['args']] for x in walk(c))
+        if not used:
+            # result stored in a local that is then tested or ORed into the flag
+            nxt = rv.block_sites(s.bid)[s.idx + 1:s.idx + 2]
+            used = bool(nxt) and nxt[0].ev['k'] == 'store' and is_var(nxt[0].ev.get('lhs')) and any(x.get('k') == 'callref' and x.get('callee') == 'conf_replace_value' for x in walk(nxt[0].ev.get('rhs')))
+        R.ob('C15.MPT.1', used, s, 'the result of reverting a child that left the file is looked at (a removed child marks its parent modified)', key='removal-result-used')
     R.floor('C15.GRD.1', 12)
     R.floor('C15.MPT.1', 5)
 
@@ -289,6 +310,45 @@ def merge_details(P, R, rule='C15.MPT.6'):
         R.ob(rule, bool(at_exit) and all(fresh for arm, fresh in at_exit if arm), al[0], 'on the plain-text arm the remembered text is re-pointed at the node\'s current text on every path to the return', key='alias-refresh')
     R.floor(rule, 5, 'flag raises, parent link, pair comparisons, alias refresh')
 
+def capacities(P, R, rule='C15.BND.1'):
+    """A vector's recorded capacity is what was allocated: wherever a `vec` member is given freshly allocated storage
+    for N elements, the `size` member is N - either the allocation is sized by the member itself, or the store to the
+    member in the same function has the same count expression.  (List values are copied with these when a default is
+    applied or a setting is replaced; a capacity larger than the block lets the next append write past it.)"""
+    n = 0
+
+    def count_of(f, e, depth=0):
+        if not isinstance(e, dict) or depth > 2:
+            return None
+        if is_var(e) and f.single_def(e['name']):
+            return count_of(f, f.single_def(e['name'])[1], depth + 1)
+        if e.get('k') == 'callref' and e.get('callee') in ('xmalloc', 'malloc', 'calloc', 'xrealloc', 'realloc'):
+            a = e['args'][-1] if e['callee'] not in ('calloc',) else e['args'][0]
+            if isinstance(a, dict) and a.get('k') == 'bin' and a.get('op') == '*':
+                for x, y in ((a['l'], a['r']), (a['r'], a['l'])):
+                    if isinstance(const_of(y), int) and not isinstance(const_of(x), int):
+                        return x
+            return a
+        return None
+    for f in P.fns.values():
+        if f.unit.startswith('tests/'):
+            continue
+        for s in f.stores():
+            ev = s.ev
+            if not (ev['k'] == 'store' and ev.get('op') == '=' and is_field(ev.get('lhs'), 'vec')):
+                continue
+            cnt = count_of(f, ev.get('rhs'))
+            if cnt is None:
+                continue
+            owner = sx(ev['lhs'].get('base'))
+            sizes = [t for t in f.stores() if t.ev['k'] == 'store' and is_field(t.ev.get('lhs'), 'size') and sx(t.ev['lhs'].get('base')) == owner and t.ev.get('op') == '=']
+            self_sized = is_field(cnt, 'size') and sx(cnt.get('base')) == owner
+            ok = self_sized or any(sx(t.ev.get('rhs')) == sx(cnt) for t in sizes)
+            n += 1
+            R.ob(rule, ok, s, '%s: the storage given to %s holds %s elements and that is the capacity recorded (%s)' % (f.name, sx(ev['lhs']), sx(cnt), ', '.join('size = %s' % sx(t.ev.get('rhs')) for t in sizes) or 'sized by the member itself'),
+                 key='capacity:%s' % f.name)
+    R.floor(rule, 10, 'vector allocations')
+
 def exhaustive(P, R):
     enum = [c['v'] for c in P.enums.get('conf_node_type', [])]
     for name in ('conf_replace_value', 'conf_object_cleanup'):
@@ -344,6 +404,16 @@ def removal_guard(P, R):
             loc = P.relloc((rv.blocks[b].get('term') or {}).get('loc', '?'))
             R.ob('C15.GRD.3', not stale, loc, 'the object branch tests whether the section WAS present before the bit is overwritten (needed to revert the children of a dropped section)', key='was-present')
             R.obligations[-1]['function'] = rv.name
+    # ... and it is the section that WAS present whose children are reverted (the test's polarity)
+    for s in rv.calls('conf_replace_value'):
+        if len(s.ev['args']) < 2 or const_of(s.ev['args'][1]) != 0:
+            continue
+        gs = rv.guards(s.bid)
+        if any(is_var(g[0], src) and g[1] == '!=' and const_of(g[2]) == 0 for g in gs):
+            continue        # inside the merge with a new version of the section: a child that left the file
+        pg = [g for g in gs if is_field(g[0], 'present') and is_var(g[0]['base'], tgt) and const_of(g[2]) == 0]
+        R.ob('C15.GRD.3', bool(pg) and all(g[1] == '!=' for g in pg), s, 'when the whole section left the file its children are reverted if the section was present before (guard: %s)' %
+             (', '.join('present %s 0' % g[1] for g in pg) or 'none'), key='revert-if-was-present')
     R.floor('C15.GRD.3', 1)
 
 
@@ -500,6 +570,9 @@ def run(P, R, tier):
     old_value_lifetime(P, R)
     notification(P, R)
     merge_details(P, R)
+    capacities(P, R)
+    rules.vector_walks(P, R, 'C15.BND.2', units=('src/config.c', 'src/common.c'))
+    R.floor('C15.BND.2', 3, 'vector walks in the configuration code')
     exhaustive(P, R)
     removal_guard(P, R)
     registration(P, R)
